@@ -51,6 +51,9 @@ type TargetOutcome struct {
 	Panic    string
 	Hung     bool
 	Requests int64 // private-key operations, when instrumented
+	Read2N   int    // bytes returned by one more Read after the first error
+	ReadErr2 string // and its error class
+	Alerts   []int  // alert codes the target sent (Config.OnAlert)
 }
 
 // TLCPSession: a real tlcp endpoint (client or server) against a puppet of the other role.
@@ -69,6 +72,7 @@ func NewTLCPSession(cfg *tlcp.Config, targetIsClient bool) *TLCPSession {
 	cli, srv, c2s, s2c := tk.StreamPair()
 	c2s.Framed, s2c.Framed = false, false
 	s := &TLCPSession{}
+	cfg.OnAlert = func(code uint8, _ *tlcp.Conn) { s.out.Alerts = append(s.out.Alerts, int(code)) }
 	var pconn *tk.SConn
 	if targetIsClient {
 		s.Target, s.raw, pconn = tlcp.Client(cli, cfg), cli, srv
@@ -97,6 +101,8 @@ func NewTLCPSession(cfg *tlcp.Config, targetIsClient bool) *TLCPSession {
 			s.out.Read = append(s.out.Read, buf[:n]...)
 			if rerr != nil {
 				s.out.ReadErr = tk.ErrClass(rerr)
+				k, e2 := s.Target.Read(buf)
+				s.out.Read2N, s.out.ReadErr2 = k, tk.ErrClass(e2)
 				return
 			}
 		}
